@@ -1,6 +1,7 @@
 // JPEG: gil writer (gray8, rgb8, cmyk8).
 #include "iosim.hpp"
 #include "fmt_common.hpp"
+#include "iosim_rt.hpp"
 #include <boost/gil/extension/io/jpeg.hpp>
 
 namespace sim {
@@ -83,6 +84,34 @@ long declared(Bytes const& b)
     return -1;
 }
 
+Outcome roundtrip(Json const& plan)
+{
+    std::string v = plan.str("variant");
+    gil::image_write_info<Tag> info; // default quality 100
+    if (v == "gray8") return RoundTrip<Tag, gil::gray8_image_t, false, true>::run(plan, "jpg", info);
+    if (v == "rgb8") return RoundTrip<Tag, gil::rgb8_image_t, true, true>::run(plan, "jpg", info);
+    if (v == "cmyk8") return RoundTrip<Tag, gil::cmyk8_image_t, true, true>::run(plan, "jpg", info);
+    Outcome o; o.cls = "skipped:type"; return o;
+}
+
+template <class Native> Outcome paths_for(Json const& plan, Bytes& bytes, PathsCfg const& cfg)
+{
+    using any_t = gil::any_image<gil::gray8_image_t, gil::rgb8_image_t, gil::cmyk8_image_t>;
+    static char const* const names[] = {"gray8", "rgb8", "rgba8"};
+    return PathsFor<Tag, Native, any_t, Native, gil::gray8_pixel_t, gil::rgb8_pixel_t, gil::rgba8_pixel_t>::run(plan, bytes, "jpg", cfg, names);
+}
+
+Outcome paths(Json const& plan)
+{
+    std::string v = plan.str("variant");
+    Bytes bytes;
+    if (!make(v, (int)plan.num("w", 1), (int)plan.num("h", 1), (uint64_t)plan.num("cseed"), bytes)) { Outcome o; o.cls = "skipped:variant"; return o; }
+    PathsCfg cfg;
+    if (v == "gray8") return paths_for<gil::gray8_image_t>(plan, bytes, cfg);
+    if (v == "cmyk8") return paths_for<gil::cmyk8_image_t>(plan, bytes, cfg);
+    return paths_for<gil::rgb8_image_t>(plan, bytes, cfg);
+}
+
 Format make_format()
 {
     Format f;
@@ -91,6 +120,8 @@ Format make_format()
     f.native_types = {"gray8", "rgb8", "cmyk8"};
     f.convert_types = {"gray8", "rgb8", "rgba8"};
     f.devices = {"FILE", "istream", "name"};
+    f.write_types = {"gray8", "rgb8", "cmyk8"};
+    f.roundtrip = roundtrip; f.paths = paths;
     f.make = make; f.read = read; f.fields = fields; f.declared_pixels = declared;
     return f;
 }
